@@ -91,6 +91,52 @@ pub fn dispatch(op: &str, f: &[String]) -> Option<String> {
             let c2 = m.compare_to_latest(&f[2], &f[1]);
             format!("{} {:?} {:?}", e, c, c2)
         }
+        // ts.dump <eco> <text> : the syntax tree the parser of that format walks (preorder):
+        // depth,kindhex,startByte,endByte,startRow,startCol,endRow,endCol,field|-,flags(n=named m=missing e=error x=extra) ; …
+        "ts.dump" => {
+            let mut parser = tree_sitter::Parser::new();
+            let lang: tree_sitter::Language = match f[0].as_str() {
+                "npm" | "jsr" => tree_sitter_json::LANGUAGE.into(),
+                "crates" | "pypi" => tree_sitter_toml_ng::LANGUAGE.into(),
+                "gha" | "pnpm" => tree_sitter_yaml::LANGUAGE.into(),
+                _ => return Some("-".into()),
+            };
+            parser.set_language(&lang).unwrap();
+            let Some(tree) = parser.parse(&f[1], None) else { return Some("-".into()) };
+            let mut out = String::new();
+            let mut cursor = tree.walk();
+            let mut depth = 0usize;
+            loop {
+                let n = cursor.node();
+                let mut flags = String::new();
+                if n.is_named() { flags.push('n'); }
+                if n.is_missing() { flags.push('m'); }
+                if n.is_error() { flags.push('e'); }
+                if n.is_extra() { flags.push('x'); }
+                out.push_str(&format!("{},{},{},{},{},{},{},{},{},{};", depth, crate::util::hex(n.kind()), n.start_byte(), n.end_byte(),
+                    n.start_position().row, n.start_position().column, n.end_position().row, n.end_position().column,
+                    cursor.field_name().unwrap_or("-"), if flags.is_empty() { "-".to_string() } else { flags }));
+                if cursor.goto_first_child() { depth += 1; continue; }
+                loop {
+                    if cursor.goto_next_sibling() { break; }
+                    if !cursor.goto_parent() { return Some(out); }
+                    depth -= 1;
+                }
+            }
+        }
+        // pep508 <requirement> : what the PEP 508 library makes of a requirement string: "P<name>|<specifiers>" / "U" (URL) / "E" / "PANIC"
+        "pep508" => {
+            use std::str::FromStr;
+            match std::panic::catch_unwind(|| pep508_rs::Requirement::<pep508_rs::VerbatimUrl>::from_str(&f[0])) {
+                Err(_) => "X".into(),
+                Ok(Err(_)) => "E".into(),
+                Ok(Ok(req)) => match &req.version_or_url {
+                    Some(pep508_rs::VersionOrUrl::Url(_)) => "U".into(),
+                    Some(pep508_rs::VersionOrUrl::VersionSpecifier(s)) => format!("P{}|{}", crate::util::hex(&req.name.to_string()), crate::util::hex(&s.to_string())),
+                    None => format!("P{}|", crate::util::hex(&req.name.to_string())),
+                },
+            }
+        }
         _ => return None,
     })
 }
